@@ -52,6 +52,11 @@ def r2(ctx):
     clusters = Attr(m, "clusters")
     K = tm.length(clusters)
     T = tm.length(data)
+    pcs = tm.pieces_of(rt)
+    if len(pcs) != 1:
+        ctx.fail(fi, "the index has special-cased return values besides the definition", role="factor",
+                 expected="a single return computing [B/(K-1)] / [Wd/(T-K)]", found="; ".join(f"{g} -> {str(v)[:40]}" for g, v in pcs)[:260])
+        return
     traces = [x for x in tm.subterms(rt) if isinstance(x, App) and x.fn == "numpy.trace"]
     uniq = {x.key: x for x in traces}
     if len(uniq) != 2:
@@ -93,3 +98,9 @@ def r2(ctx):
         okD = SD.binders[1][1] == Range(0, tm.length(members)) and SD.body == _outer(tm.add(Idx(data, (Idx(members, (p,)),)), tm.neg(mu)))
     ctx.check(okD, fi, "Wd = sum_k sum_{p in cluster k} (x_p - mu_k)(x_p - mu_k)^T", role="within",
               expected="SUM_k SUM_{p in members_k} outer(x_p - mu_k)", found=str(SD)[:220])
+
+
+@rule("C17", "R3", "ORDER", "cluster sizes and member lists used by the index are the current partition")
+def r3(ctx):
+    from . import c13
+    c13.r2(ctx)
